@@ -155,7 +155,7 @@ def run(res, tier, seed):
         first = rng.choice([1, 3, 1000])
         lns = make_pass(rng, n, first=first)
         residue = rng.randrange(5)
-        prt3, ict10, space10, base = thermal.make_telemetry(rng, lns, residue, bad_prt=2)
+        prt3, ict10, space10, base = thermal.make_telemetry(rng, lns, residue, bad_prt=2, bad_ict=3, bad_space=3)
         W = l1b.FMT[fmt]["width"]
         fam = l1b.FMT[fmt]["family"]
         samples = []
